@@ -45,47 +45,57 @@ func envInt(name string, def int) int {
 	return def
 }
 
-// searchFrom iterates k = 0..kmax from g0 and folds the counters of the largest completed k into the run.
-func searchFrom(r *ev.Run, c *cfg, what string, mk func(s *searcher) (gstate, []opt, bool), kmax int, results *[]aResult, outcomes map[string]int64) {
+type entry struct {
+	res                aResult
+	outcomes           map[string]int64
+	sims, calls, nodes int64
+}
+
+var (
+	entries = map[string]*entry{}
+	order   []string
+)
+
+// searchFrom runs k = kmin..kmax from the state built by mk and records the largest completed k for the
+// configuration (a later, deeper call for the same configuration replaces the record: every execution with <= k
+// deviations is also an execution with <= k+1).
+func searchFrom(r *ev.Run, c *cfg, what string, mk func(s *searcher) (gstate, []opt, bool), kmin, kmax int) {
+	key := what + " " + c.name
 	done := -1
+	if old := entries[key]; old != nil {
+		done = old.res.K
+	}
 	var last *searcher
 	var lastDur time.Duration
-	for k := 0; k <= kmax; k++ {
+	for k := kmin; k <= kmax; k++ {
 		if r.OutOfTime() {
-			r.Incomplete(fmt.Sprintf("%s %s: deadline before k=%d (completed k=%d)", what, c.name, k, done))
+			r.Incomplete(fmt.Sprintf("%s: deadline before k=%d (completed k=%d)", key, k, done))
 			break
 		}
-		s := newSearcher(c, r, what+" "+c.name)
+		s := newSearcher(c, r, key)
 		g0, pre, ok := mk(s)
 		if !ok {
-			r.Incomplete(fmt.Sprintf("%s %s: scripted prefix not reachable on this tree", what, c.name))
+			r.Incomplete(fmt.Sprintf("%s: scripted prefix not reachable on this tree", key))
 			r.Outcome("prefix-unreachable")
 			return
 		}
 		t0 := time.Now()
 		if !s.run(g0, k, pre) {
-			r.Incomplete(fmt.Sprintf("%s %s: k=%d cut by the deadline (completed k=%d)", what, c.name, k, done))
+			r.Incomplete(fmt.Sprintf("%s: k=%d cut by the deadline (completed k=%d)", key, k, done))
 			break
 		}
 		done, last, lastDur = k, s, time.Since(t0)
 	}
-	if last == nil {
-		return
+	if last != nil {
+		if entries[key] == nil {
+			order = append(order, key)
+		}
+		entries[key] = &entry{
+			res: aResult{Config: key, K: done, Executions: last.leaves.Load(), States: last.states.Load(), MachTuples: last.tupleCount(),
+				Transitions: last.transitions.Load(), Deviations: last.devsTaken.Load(), Unstored: last.unstored.Load(), Outcomes: len(last.outcomes), Seconds: lastDur.Seconds()},
+			outcomes: last.outcomes, sims: c.sims.Load(), calls: c.calls.Load(), nodes: c.nodes.Load(),
+		}
 	}
-	res := aResult{Config: what + " " + c.name, K: done, Executions: last.leaves.Load(), States: last.states.Load(), MachTuples: last.tupleCount(),
-		Transitions: last.transitions.Load(), Deviations: last.devsTaken.Load(), Unstored: last.unstored.Load(), Outcomes: len(last.outcomes), Seconds: lastDur.Seconds()}
-	*results = append(*results, res)
-	r.Add("states", res.States)
-	r.Add("distinct_machine_state_tuples", res.MachTuples)
-	r.Add("transitions", res.Transitions)
-	r.Add("executions", res.Executions)
-	r.Add("traces_validated_against_impl", res.Executions)
-	for l, n := range last.outcomes {
-		outcomes[l] += n
-	}
-	r.Add("real_simulations_memo_misses", c.sims.Load())
-	r.Add("real_process_calls", c.calls.Load())
-	r.Add("distinct_validator_states", c.nodes.Load())
 	c.roots, c.canon = nil, nil // release the memo DAG of this configuration
 	runtime.GC()
 }
@@ -117,48 +127,45 @@ func TestCheck(t *testing.T) {
 		voteCounterDifferential(r)
 	}
 
-	outcomes := map[string]int64{}
-	var results []aResult
 	eq := []uint{1, 1, 1, 1}
+	fromStart := func(s *searcher) (gstate, []opt, bool) { return s.start(), nil, true }
+	kA := envInt("VERIF_C12_K", -1)
+	kB := envInt("VERIF_C12_KB", 2)
 
 	// ---- (A) from the initial state ---------------------------------------------------------------
 	// byz = proposer of round 0 / of round 1 / of no explored round (byz=3 is symmetric to byz=2 for R=1).
 	// The silent-proposer configuration byz=0 has ~9x more deviation sites (every timeout class is a quiescent
-	// boundary where the whole alphabet is offered), hence one level less.
-	kA := envInt("VERIF_C12_K", -1)
+	// boundary where the whole alphabet is offered), hence one level less in the quick tier.
+	aCfg := func(b int) *cfg { return newCfg(fmt.Sprintf("n4 equal byz=%d R=1", b), eq, b, 1) }
 	for _, b := range []int{0, 1, 2} {
 		if ob := envInt("VERIF_C12_ONLYBYZ", -1); ob >= 0 && ob != b {
 			continue
 		}
-		c := newCfg(fmt.Sprintf("n4 equal byz=%d R=1", b), eq, b, 1)
-		k := ev.Pick(r, 3, 4)
+		k := 3
 		if b == 0 {
 			k = ev.Pick(r, 2, 3)
 		}
 		if kA >= 0 {
 			k = kA
 		}
-		searchFrom(r, c, "A", func(s *searcher) (gstate, []opt, bool) { return s.start(), nil, true }, k, &results, outcomes)
+		searchFrom(r, aCfg(b), "A", fromStart, 0, k)
 	}
 	if r.Thorough() && kA < 0 {
 		// three rounds from the initial state, every Byzantine position
 		for _, b := range []int{0, 1, 2, 3} {
-			c := newCfg(fmt.Sprintf("n4 equal byz=%d R=2", b), eq, b, 2)
-			searchFrom(r, c, "A", func(s *searcher) (gstate, []opt, bool) { return s.start(), nil, true }, 2, &results, outcomes)
+			searchFrom(r, newCfg(fmt.Sprintf("n4 equal byz=%d R=2", b), eq, b, 2), "A", fromStart, 0, 2)
 		}
 		// weighted voting power: N=5 (2,1,1,1) q=4 f=1 ; N=7 (3,2,1,1) q=5 f=2 with the Byzantine validator holding 2 or 1
 		for _, w := range []struct {
 			p   []uint
 			byz int
 		}{{[]uint{2, 1, 1, 1}, 1}, {[]uint{2, 1, 1, 1}, 3}, {[]uint{1, 2, 1, 1}, 0}, {[]uint{3, 2, 1, 1}, 1}, {[]uint{3, 1, 2, 1}, 2}, {[]uint{1, 3, 1, 2}, 0}} {
-			c := newCfg(fmt.Sprintf("n4 powers=%v byz=%d R=1", w.p, w.byz), w.p, w.byz, 1)
-			searchFrom(r, c, "A", func(s *searcher) (gstate, []opt, bool) { return s.start(), nil, true }, 2, &results, outcomes)
+			searchFrom(r, newCfg(fmt.Sprintf("n4 powers=%v byz=%d R=1", w.p, w.byz), w.p, w.byz, 1), "A", fromStart, 0, 2)
 		}
 	}
 
 	// ---- (B) scripted prefixes ----------------------------------------------------------------------
-	kB := envInt("VERIF_C12_KB", ev.Pick(r, 2, 3))
-	for _, sc := range scenarios() {
+	runScenario := func(sc scenario, kmin, kmax int) {
 		c := newCfg(sc.name, sc.powers, sc.byz, sc.R)
 		searchFrom(r, c, "B", func(s *searcher) (gstate, []opt, bool) {
 			g, tr, ok := s.script(sc.script)
@@ -171,7 +178,42 @@ func TestCheck(t *testing.T) {
 				}
 			}
 			return g, tr, ok
-		}, kB, &results, outcomes)
+		}, kmin, kmax)
+	}
+	for _, sc := range scenarios() {
+		runScenario(sc, 0, kB)
+	}
+
+	// ---- deepening (thorough): one more deviation, cheapest first; a deadline cut only loses these ------------
+	if r.Thorough() && kA < 0 && envInt("VERIF_C12_KB", -1) < 0 {
+		scs := scenarios()
+		sort.SliceStable(scs, func(i, j int) bool { return entries["B "+scs[i].name].res.States < entries["B "+scs[j].name].res.States })
+		for _, sc := range scs[:2] {
+			runScenario(sc, 3, 3)
+		}
+		searchFrom(r, aCfg(2), "A", fromStart, 4, 4)
+		searchFrom(r, aCfg(1), "A", fromStart, 4, 4)
+		for _, sc := range scs[2:] {
+			runScenario(sc, 3, 3)
+		}
+	}
+
+	outcomes := map[string]int64{}
+	var results []aResult
+	for _, key := range order {
+		e := entries[key]
+		results = append(results, e.res)
+		r.Add("states", e.res.States)
+		r.Add("distinct_machine_state_tuples", e.res.MachTuples)
+		r.Add("transitions", e.res.Transitions)
+		r.Add("executions", e.res.Executions)
+		r.Add("traces_validated_against_impl", e.res.Executions)
+		r.Add("real_simulations_memo_misses", e.sims)
+		r.Add("real_process_calls", e.calls)
+		r.Add("distinct_validator_states", e.nodes)
+		for l, n := range e.outcomes {
+			outcomes[l] += n
+		}
 	}
 
 	// ---- report -----------------------------------------------------------------------------------------
